@@ -1167,6 +1167,11 @@ def judge_rich_source(rec, src: str, domain: str):  # noqa: ANN001, ANN201, C901
 def compare_rich_lambda(rec, out: list, stored, node: ast.Lambda, lam_py, future, domain, label) -> None:  # noqa: ANN001
     from _griffe.expressions import ExprLambda
 
+    if isinstance(stored, str):
+        # A default the expression builder cannot turn into an Expr is kept as its source text (the text itself was judged
+        # by judge_rich_expr just before): there is no structure to compare, and the statement does not demand one.
+        rec.count("rich_lambda_kept_as_source_text_not_structured")
+        return
     if not isinstance(stored, ExprLambda):
         out.append((f"{label}: lambda not stored as ExprLambda", repr(stored)[:200], "ExprLambda", None))
         return
